@@ -97,18 +97,30 @@ def cases(tier, rng):
     # accept-side join racing with subscribe (held between reading the set and registering the peer)
     out.append("z%d sock SUB / sub 41 / attach a PUB / attach b PUB bg wplan=a,a wmode=stall / yield 3 / sub 42 / wmode b all / join b / settle / wire a / wire b" % k)
     k += 1
+    # subscribe / unsubscribe over connections that answer every write from a script (compared with Model/DirSend.v)
+    from . import scripted
+    out += scripted.sub_cases(tier, rng, k)
     return out
 
 
 def compare_filter(line):
-    return line.split()[0][0] in "hm"      # (i: same identity twice - the model assumes distinct identities)
+    return line.split()[0][0] in "hmk"      # (i: same identity twice - the model assumes distinct identities)
+
+
+def model_cases(case_lines):
+    from . import scripted
+    return [scripted.sub_model(l) if l.startswith("k") else l for l in case_lines]
 
 
 def norm_impl(o, line):
+    if line.startswith("k"):
+        from . import scripted
+        return scripted.norm(o)
     return S.canon_impl(o, line)
 
 
-norm_model = norm_impl
+def norm_model(o, line):
+    return o if line.startswith("k") else S.canon_impl(o, line)
 
 
 def view(wire_hex):
@@ -130,6 +142,9 @@ def view(wire_hex):
 def judge(line, obs, orc):
     if S.bad_obs(obs):
         return "implementation " + str(obs)[:80]
+    if line.startswith("k"):
+        from . import scripted
+        return scripted.sub_judge(line, obs)
     t, po = S.pair_ops_obs(line, obs)
     subs = set()
     broken = set()
